@@ -131,7 +131,7 @@ def rangeS (pm : List Param) : Stmt → Frame → Bool
   | .attrClear, _ => true
   | .setUl _, _ => true
   | .logErr, _ => true
-  | .reply, _ => true
+  | .reply _, _ => true
   | .setMode _ _, _ => true
   | .post, _ => true
   | .setLink _, _ => true
